@@ -72,7 +72,8 @@ def bounds(tier, seed):
 # oracle helpers
 # ------------------------------------------------------------------------------
 def unix(dt):
-    return int((dt - datetime(1970, 1, 1, tzinfo=pytz.utc)).total_seconds())
+    t = (dt - datetime(1970, 1, 1, tzinfo=pytz.utc)).total_seconds()
+    return int(t) if not dt.microsecond else t
 
 
 def floor_period(dt, period):
@@ -141,7 +142,7 @@ def doc_instants(zone, day, period, tier):
     base = unix(local_midnight.astimezone(pytz.utc))
     psec = int(60 * period)
     k0 = -(-base // psec)  # first boundary at or after local midnight
-    offs = [0, 1, psec - 1]
+    offs = [0, 1, psec - 1, psec - 0.4]  # the last one: a time with a fraction of a second, 0.4 s before a boundary
     ks = [0, 1, 2, 5, 12, 13] if tier == "quick" else [0, 1, 2, 3, 5, 11, 12, 13, 24, 37]
     # stretch over the 01:00-03:30 local window where DST switches happen
     span = 4 * 3600 // psec
